@@ -24,7 +24,7 @@ structure Rep where
   rebuilding : Bool
   maxChain : Nat              -- types.MaxChainLength (0 = the built-in 1024)
   srcRev  : Nat               -- during a rebuild, after the swap: the source's revision counter
-  rb      : Nat               -- rebuild phase of the harness protocol: 0 none, 1 begun, 2 reloaded, 3 promoted
+  rb      : Nat               -- rebuild phase of the harness protocol: 0 none, 1 begun, 2 reloaded, 4 mapped, 3 promoted
 
 /-- the requests of the line protocol -/
 inductive RepOp where
@@ -94,9 +94,9 @@ def step (r : Rep) : RepOp → Rep × RepOut
     | .wo   =>
       -- rb = 2: the rebuilt replica under a controller, which widens sub-block writes with the
       -- data of the RW replicas (equal to this replica's own image by `c07_identical`)
-      ({ r with dd := if r.rb = 2 then r.dd.widenWrite r.dd.live off len (payload off tag)
+      ({ r with dd := if r.rb = 2 ∨ r.rb = 4 then r.dd.widenWrite r.dd.live off len (payload off tag)
                       else r.dd.write off len (payload off tag),
-                srcRev := if r.rb = 2 then r.srcRev + 1 else r.srcRev }, .ok)
+                srcRev := if r.rb = 2 ∨ r.rb = 4 then r.srcRev + 1 else r.srcRev }, .ok)
     | .init => (r, .refused)
   | .cwrite n tag =>
     if !r.isOpen || r.mode = .init then (r, .refused) else
@@ -183,10 +183,11 @@ def step (r : Rep) : RepOp → Rep × RepOut
     -- (mode WO, its own revision counter, which a WO replica does not advance)
     ({ r with dd := (r.dd.setPunch true).reopen false, headN := 1, orphans := [], ckpt := "", rb := 2,
               mode := .wo, srcRev := r.rev, rev := 1 }, .ok)
-  | .lunmap => if !r.isOpen then (r, .refused) else ({ r with dd := r.dd.lunmap }, .ok)
+  | .lunmap =>
+    if !r.isOpen then (r, .refused) else ({ r with dd := r.dd.lunmap, rb := if r.rb = 2 then 4 else r.rb }, .ok)
   | .rbPromote =>
-    if r.rb ≠ 2 || !r.isOpen then (r, .refused) else
-    -- all three replicas are RW again: UpdateCheckpoint records the newest snapshot everywhere
+    if r.rb ≠ 4 || !r.isOpen then (r, .refused) else
+    -- (only after `UpdateLUNMap`, as in sync.reloadAndVerify) all three replicas are RW again: UpdateCheckpoint records the newest snapshot everywhere
     ({ r with mode := .rw, rev := r.srcRev, rb := 3,
               ckpt := match r.names.getLast? with | some n => "volume-snap-" ++ n ++ ".img" | none => "" }, .ok)
   | .maxChainSet n => ({ r with maxChain := n }, .ok)
